@@ -1147,7 +1147,7 @@ def check_stream(ctx, st, env, stream, log, specs, stats, spec_of=None, skip_ids
             up_local = sharp  # +1: watched quantity goes - -> + in physical time at the event; None if undetermined
             up_samples = 1 if sgn(g_late) > 0 else -1
             up = up_local if up_local is not None else up_samples
-            check_label(ctx, env, spec, ev, up, wit, bsuf)
+            check_label(ctx, env, spec, ev, ept, up, wit, bsuf)
             if env.kepler is not None:
                 dtc = closed_form_dt(env.kepler, spec, up, te)
                 if dtc is not None:
@@ -1210,7 +1210,7 @@ def sharpness(ctx, st, env, spec, ev, ept, wit, bsuf):
     return 1 if s_last > 0 else -1
 
 
-def check_label(ctx, env, spec, ev, up, wit, bsuf):
+def check_label(ctx, env, spec, ev, ept, up, wit, bsuf):
     kind = spec.kind
     if kind in ("node", "signal", "terminator", "anomaly", "radial"):
         bsuf = ""  # these labels come from a physical derivative / a constant: one mechanism whatever the direction
@@ -1240,6 +1240,17 @@ def check_label(ctx, env, spec, ev, up, wit, bsuf):
         return
     elif kind == "anomaly":
         txt = "Argument of Latitude" if spec.anomaly == "aol" else f"{spec.anomaly.title()} Anomaly"
+        if abs(spec.g(ept)) > 1.0:
+            # The sign change that was located is the +-pi wrap-around of the wrapped difference, not a zero:
+            # the trajectory between the two samples passed the antipode of the watched value although the
+            # samples bracket the value itself.  Seen only with Ephem(method='linear') on near-circular orbits,
+            # where the osculating anomaly of the chord between two nodes swings through all values.  Every
+            # clause of the statement (sign change between the samples, event between them, sign change within
+            # microseconds of it) holds literally, so this is recorded, not judged.
+            ctx.count("observed:anomaly-event-at-wrap-around-discontinuity")
+            if "anomaly-event-at-wrap-around" not in ctx.notes:
+                ctx.note("anomaly-event-at-wrap-around", dict(wit(), g_own_at_event=spec.g(ept)))
+            return
         good = False
         if info.startswith(txt + " = "):
             try:
